@@ -60,8 +60,14 @@ impl Spawner for PoolSpawner {
         if self.known_ips.len() < self.config.count - self.current_sources.len() {
             match self.config.addr.lookup_host().await {
                 Ok(addresses) => {
-                    // add the addresses looked up to our list of known ips
-                    self.known_ips.append(&mut addresses.collect());
+                    // add the addresses looked up to our list of known ips, keeping
+                    // every address only once: the same address may be left over from
+                    // an earlier lookup or may occur more than once in a single answer
+                    for addr in addresses {
+                        if !self.known_ips.contains(&addr) {
+                            self.known_ips.push(addr);
+                        }
+                    }
                     // remove known ips that we are already connected to or that we want to ignore
                     self.known_ips.retain(|ip| {
                         !self.current_sources.iter().any(|p| p.addr == *ip)
